@@ -1064,6 +1064,12 @@ func (x *Exec) callAnchors(fr *Frame, calleeKey string, st *State, reach Term, p
 		for _, p := range fr.fn.Params {
 			delete(env.vars, p.Name())
 		}
+		// arg0, arg1, ...: the values passed at this call (receiver first for methods)
+		if ci, ok := cur.(ssa.CallInstruction); ok {
+			for ai, a := range ci.Common().Args {
+				env.vars[fmt.Sprintf("arg%d", ai)] = x.val(fr, a)
+			}
+		}
 		t := x.trBool(ac.Clause.Expr, env)
 		if ac.Kind == "assert" {
 			x.oblige("order", fmt.Sprintf("%s@%s#%d", labelOr(ac.Clause.Label, 0), ac.Callee, ac.K), implies(reach, t), pos, ac.Clause.Text)
